@@ -416,6 +416,35 @@ pub fn responses(max_n: usize, max_payload: usize, max_value: usize) -> impl Str
     prop::collection::vec(response(max_payload, max_value), 1..=max_n)
 }
 
+/// A frame with many distinct keys (field-name interning) and many lines.
+pub fn wide_frame() -> impl Strategy<Value = AFrame> {
+    (prop_oneof![Just(17usize), Just(64), Just(65), Just(129), Just(257), Just(1025), 20..600usize], any::<u8>()).prop_map(|(n, salt)| AFrame {
+        items: (0..n)
+            .map(|i| {
+                let mut k = String::from("k");
+                let mut x = i * 7 + salt as usize;
+                loop {
+                    k.push((b'a' + (x % 26) as u8) as char);
+                    x /= 26;
+                    if x == 0 {
+                        break;
+                    }
+                }
+                Item::Field(if i % 5 == 4 { "dup".to_string() } else { k }, format!("v{i}"))
+            })
+            .collect(),
+    })
+}
+
+/// Many small responses on one connection (state carried from response to response).
+pub fn long_sequence() -> impl Strategy<Value = Vec<AResp>> {
+    prop_oneof![
+        3 => prop::collection::vec(response(12, 12), 7..=60usize),
+        1 => prop::collection::vec(prop_oneof![3 => response(12, 12), 1 => wide_frame().prop_map(AResp::Single)], 2..=12usize),
+        1 => prop::collection::vec(response(12, 12), 100..=300usize),
+    ]
+}
+
 /// A response whose payload makes the receive buffer double past 64 KiB (4096 -> ... -> 131072).
 pub fn huge_response() -> impl Strategy<Value = AResp> {
     (prop_oneof![Just(61_440usize), Just(65_535), Just(65_536), Just(70_000), Just(100_000), Just(131_072), Just(140_000)], any::<u8>(), any::<bool>()).prop_map(
